@@ -299,7 +299,6 @@ func (d *DeployedRaft) Close() {
 	}
 }
 
-
 // DeployedRun is one scheduled execution of the deployed wiring.
 type DeployedRun struct {
 	D         *DeployedRaft
@@ -378,6 +377,10 @@ func DriveDeployed(t *rapid.T, dopt DeployedDriveOpts) (*DeployedRun, string) {
 	all = append(all, d.CInsts...)
 	// nemesis: the leader crashes (with this probability per commit of its) once it has committed something, if a crash is still allowed
 	leaderCrashPct := rapid.SampledFrom([]int{0, 0, 2, 10}).Draw(t, "crash-leader-after-commit")
+	// nemesis: hand-over — once a leader has committed something, another server's election timer is made to expire
+	// soon (with this probability per commit of the leader), so that servers that learnt commits as followers go on as leaders
+	handoverPct := rapid.SampledFrom([]int{0, 10, 30, 60}).Draw(t, "handover-after-commit")
+	favoured, favouredUntil := 0, -1
 	for step := 0; step < budget; {
 		for s := 1; s <= n; s++ {
 			if at, ok := crashAt[s]; ok && step >= at && !d.Crashed[s] {
@@ -397,6 +400,9 @@ func DriveDeployed(t *rapid.T, dopt DeployedDriveOpts) (*DeployedRun, string) {
 			wt := 10
 			if strings.HasPrefix(in.Name, "AServerRequestVote") {
 				wt = electPct // stepping it means that its election timer expires
+				if node == favoured && step < favouredUntil {
+					wt = 120
+				}
 			} else if strings.HasPrefix(in.Name, "AServer(") {
 				wt = 30
 			}
@@ -437,6 +443,22 @@ func DriveDeployed(t *rapid.T, dopt DeployedDriveOpts) (*DeployedRun, string) {
 				if dopt.OnCommit != nil {
 					if msg := dopt.OnCommit(run, in, st); msg != "" {
 						return run, msg
+					}
+				}
+				if node := d.NodeOf(in); handoverPct > 0 && node <= n && n > 1 && step >= favouredUntil {
+					sh := d.Shadow[node-1]
+					if sh["state"].AsString() == "leader" && sh["commitIndex"].AsNumber() > 0 && rapid.IntRange(0, 99).Draw(t, "handover-now") < handoverPct {
+						var others []int
+						for s := 1; s <= n; s++ {
+							if s != node && !d.Crashed[s] {
+								others = append(others, s)
+							}
+						}
+						if len(others) > 0 {
+							favoured = others[rapid.IntRange(0, len(others)-1).Draw(t, "handover-to")]
+							favouredUntil = step + 60
+							fmt.Fprintf(&run.Hist, "-- server %d's election timer is about to expire (step %d)\n", favoured, step)
+						}
 					}
 				}
 				if node := d.NodeOf(in); leaderCrashPct > 0 && node <= n && len(run.Crashes)+len(crashAt) < (n-1)/2+0 && !d.Crashed[node] {
